@@ -197,13 +197,13 @@ def switches2_nocache(c0: int, e0: int, c1: int, e1: int, l1: int, a0: int, b0: 
     return _run(True, [(c0, e0, 0, a0, b0), (c1, e1, l1, a1, b0)], order)
 
 
-@harness("C16", lemma="switches-3", cubes={"nc": [False], "c0": [0, 1, 2, 3], "c1": [0, 1, 2, 3], "c2": [0, 1, 2, 3], "e2": [0, 1, 2]},
-         stubs=("S1",), pre=["0 <= e0 <= 2", "0 <= e1 <= 2", "0 <= l0 <= 2", "0 <= l1 <= 2", "0 <= l2 <= 2"], tier="thorough",
-         example=dict(nc=False, c0=0, e0=0, l0=0, c1=3, e1=2, l1=2, c2=0, e2=0, l2=0, a0=1, b0=2, a1=1, b1=2, a2=1, b2=2, order=False),
-         timeout=900, bounds="history of 3 evaluations, full cross product of switch settings per evaluation", what="as switches-2")
-def switches3(nc: bool, c0: int, e0: int, l0: int, c1: int, e1: int, l1: int, c2: int, e2: int, l2: int,
-              a0: int, b0: int, a1: int, b1: int, a2: int, b2: int, order: bool) -> int:
-    return _run(nc, [(c0, e0, l0, a0, b0), (c1, e1, l1, a1, b1), (c2, e2, l2, a2, b2)], order)
+@harness("C16", lemma="switches-3", cubes={"c0": [0, 3], "c1": [0, 1, 3], "c2": [0, 1, 2, 3], "e2": [0, 1, 2]}, stubs=("S1",),
+         pre=["0 <= e1 <= 2", "0 <= l2 <= 2"], tier="thorough",
+         example=dict(c0=0, c1=3, e1=2, c2=0, e2=0, l2=0, a0=1, b0=2, a1=1, a2=1, order=False), timeout=1800,
+         bounds="history of 3 evaluations: cache setting 2 x 3 x 4 (cubes), effects setting of the 2nd and 3rd, logging setting of the 3rd "
+                "evaluation free; A equal or different between evaluations", what=_W2)
+def switches3(c0: int, c1: int, e1: int, c2: int, e2: int, l2: int, a0: int, b0: int, a1: int, a2: int, order: bool) -> int:
+    return _run(False, [(c0, 0, 0, a0, b0), (c1, e1, 0, a1, b0), (c2, e2, l2, a2, b0)], order)
 
 
 @harness("C16", lemma="reused-contexts", cubes={"which": [0, 1, 2]}, stubs=("S1",), example=dict(which=2, a=1, b=2, nested=True), timeout=600,
